@@ -12,6 +12,9 @@ import EaselModel.Weights.Rounding
 import EaselModel.Weights.FindMin
 import EaselModel.Weights.FilterOrder
 import EaselModel.Weights.GSCPerm
+import EaselModel.Weights.AdvLemmas
+import EaselModel.Weights.TreeLemmas
+import EaselModel.Weights.DistanceLemmas
 /-! # C16 — sequence weights, identity filtering and clustering follow their definitions
 
   Theorems about the `ℚ` instance of the executable model `EaselModel.Weights` (the `Float` instance of the same
@@ -405,5 +408,232 @@ example : tieFreeB Mode.text
     [[67, 69, 68, 65, 65, 68, 69, 65, 68, 69, 65, 65], [69, 65, 67, 65, 68, 65, 68, 69, 68, 65, 69, 68],
      [68, 65, 69, 65, 68, 68, 69, 65, 68, 69, 68, 68], [69, 65, 65, 68, 68, 68, 65, 65, 67, 69, 68, 68]] = false := by
   decide +kernel
+
+/-! ## `ESL_MSAWEIGHT_CFG`: every configuration of `esl_msaweight_PB_adv` / `esl_msaweight_IDFilter_adv`, incl. the consensus
+    determined on a random SAMPLE of rows (`consensus_by_sample`, taken when `allow_samp && nseq > sampthresh`).
+    `deal m n` is the sampler (`esl_rand64_Deal` in the driver): the statements hold for every function. -/
+
+/-- whatever the configuration and the sample: the weights are the PB rule applied to SOME list of consensus columns
+    (consensus columns are chosen per alignment, not per row) -/
+theorem pbAdv_is (abc : Abc) (cfg : WCfg) (deal : Nat → Nat → List Nat) (rf : Option Row) (rows : List Row) :
+    pbAdv (α := ℚ) abc cfg deal rf rows =
+      pbWeights (PBParams.digital abc) (digStats abc (rows.map (rowInfo abc cfg.minspan))
+        (pbConsensusAdv abc cfg deal rf rows).cols) rows := rfl
+
+/-- Σw = N and w ≥ 0 for every configuration, every RF line and every sample -/
+theorem pbAdv_sum_nonneg (abc : Abc) (cfg : WCfg) (deal : Nat → Nat → List Nat) (rf : Option Row) (rows : List Row)
+    (hne : rows ≠ []) :
+    (pbAdv (α := ℚ) abc cfg deal rf rows).sum = rows.length ∧ ∀ w ∈ pbAdv (α := ℚ) abc cfg deal rf rows, 0 ≤ w :=
+  ⟨pbWeights_sum _ _ rows hne, pbWeights_nonneg _ _ rows⟩
+
+/-- identical rows ⇒ identical weights, also with a sampled consensus (even if only one of the two rows was sampled) -/
+theorem pbAdv_identical_rows (abc : Abc) (cfg : WCfg) (deal : Nat → Nat → List Nat) (rf : Option Row) (rows : List Row)
+    (i j : Nat) (hi : i < rows.length) (hj : j < rows.length) (h : rows[i] = rows[j])
+    (hi' : i < (pbAdv (α := ℚ) abc cfg deal rf rows).length) (hj' : j < (pbAdv (α := ℚ) abc cfg deal rf rows).length) :
+    (pbAdv (α := ℚ) abc cfg deal rf rows)[i] = (pbAdv (α := ℚ) abc cfg deal rf rows)[j] :=
+  pbWeights_eq_of_eq _ _ rows i j hi hj h hi' hj'
+
+/-- the 1/(r·c) formula with true column counts holds on the sampled consensus columns as on any others
+    (`pb_formula`, `pb_counts_digital` are stated for every column list) -/
+theorem pbAdv_formula (abc : Abc) (cfg : WCfg) (deal : Nat → Nat → List Nat) (rf : Option Row) (rows : List Row)
+    (hn : rows.length ≠ 1) (i : Nat) (hi : i < rows.length) (hi' : i < (pbAdv (α := ℚ) abc cfg deal rf rows).length) :
+    let stats := digStats abc (rows.map (rowInfo abc cfg.minspan)) (pbConsensusAdv abc cfg deal rf rows).cols
+    (pbAdv (α := ℚ) abc cfg deal rf rows)[i] =
+      (if (rows.map (pbRaw (α := ℚ) (PBParams.digital abc) stats)).sum = 0 then 1
+       else pbRaw (PBParams.digital abc) stats rows[i] / (rows.map (pbRaw (α := ℚ) (PBParams.digital abc) stats)).sum * rows.length) :=
+  pbWeights_getElem _ _ rows hn i hi hi'
+
+/-- without the sampling branch (`allow_samp` off, or `nseq ≤ sampthresh` — the documented range with the default 50 000)
+    the configured routine is `pbDigital`, the model of the default path, with the RF line dropped when `ignore_rf` -/
+theorem pbAdv_no_sampling (abc : Abc) (cfg : WCfg) (deal : Nat → Nat → List Nat) (rf : Option Row) (rows : List Row)
+    (h : (cfg.allowSamp && decide ((rows.length : Int) > cfg.sampthresh)) = false) :
+    pbAdv (α := ℚ) abc cfg deal rf rows =
+      pbDigital abc cfg.rule cfg.minspan (if cfg.ignoreRf then none else rf) rows :=
+  pbAdv_eq_pbDigital abc cfg deal rf rows h
+
+example : ((({ minspan := 5, rule := fun g t => 2 * g < t } : WCfg).allowSamp &&
+    decide (((3 : Nat) : Int) > ({ minspan := 5, rule := fun g t => 2 * g < t } : WCfg).sampthresh)) = false) := by decide
+
+/-- with a sampled consensus, relisting the rows does NOT permute the weights: the sample is a set of row POSITIONS.
+    Three rows `A-`, `AA`, `-A`, sample = the first row: listed as (0,1,2) the consensus is column 1 and row `A-` gets 3/2;
+    listed as (2,1,0) the consensus is column 2 and the same row gets 0. (Outside the stated range of C16 for the default
+    configuration: it needs nseq > sampthresh.) -/
+theorem pb_relisting_fails_with_sampling :
+    let cfg : WCfg := { minspan := 0, rule := fun g t => 2 * g < t, sampthresh := 2, nsamp := 1 }
+    let deal : Nat → Nat → List Nat := fun m _ => List.range m
+    pbAdv (α := ℚ) Abc.amino cfg deal none [[0, 20], [0, 0], [20, 0]] = [3/2, 3/2, 0] ∧
+    pbAdv (α := ℚ) Abc.amino cfg deal none [[20, 0], [0, 0], [0, 20]] = [3/2, 3/2, 0] := by decide +kernel
+
+/-- esl_msaweight_IDFilter_adv, every configuration, every preference rule (conscover on RF / sampled / full consensus,
+    random, original order): the kept rows are pairwise below the threshold and no dropped row could be added -/
+theorem idFilterAdv_spec (abc : Abc) (cfg : WCfg) (deal : Nat → Nat → List Nat) (pref : FilterPref) (maxid : ℚ)
+    (rf : Option Row) (rows : List Row) :
+    let kept := idFilterAdv abc cfg deal pref maxid rf rows
+    (∀ x ∈ kept, x < rows.length) ∧
+    kept.Pairwise (fun k r => pid (α := ℚ) (Mode.digital abc) (rows.getD r []) (rows.getD k []) < maxid) ∧
+    (∀ r, r < rows.length → r ∉ kept →
+      ∃ k ∈ kept, maxid ≤ pid (α := ℚ) (Mode.digital abc) (rows.getD r []) (rows.getD k [])) :=
+  idFilterDigital_spec abc maxid _ rows
+
+/-- the preference rule decides WHICH representative of a redundant pair survives: rows `-A-` and `AAA` (identity 1):
+    "conscover" keeps the row spanning more consensus columns, "origorder" the one listed first -/
+theorem idFilterAdv_preference_picks_representative :
+    let cfg : WCfg := { minspan := 0, rule := fun _ _ => true }
+    idFilterAdv (α := ℚ) Abc.amino cfg (fun m _ => List.range m) .conscover (1/2) none [[20, 0, 20], [0, 0, 0]] = [1] ∧
+    idFilterAdv (α := ℚ) Abc.amino cfg (fun m _ => List.range m) .origorder (1/2) none [[20, 0, 20], [0, 0, 0]] = [0] ∧
+    idFilterAdv (α := ℚ) Abc.amino cfg (fun m _ => List.range m) (.random [1, 5]) (1/2) none [[20, 0, 20], [0, 0, 0]] = [1] := by
+  decide +kernel
+
+/-! ## the tree behind GSC: `esl_tree_UPGMA` on EVERY distance matrix, and the two traversals on EVERY tree
+
+  `upgma n d` = the state of `cluster_engine` after its n−1 passes on the symmetric matrix with entries `d x y` (x < y; the C
+  code reads the upper triangle only). Clusters 0..n−1 are the taxa, n+s is the node created in pass s (C node n−2−s);
+  `created = (upgma n d).nodes.reverse`; `toCTree` lays the result out as `ESL_TREE` does (compared exactly with the real
+  `esl_tree_UPGMA` + `esl_tree_SetTaxaParents` + `esl_tree_SetCladesizes` by op `upgma`). -/
+
+/-- (a) the result is a rooted binary tree on the n taxa, for every matrix (ties, zeros, negative entries — anything): n−1
+    nodes, each joining two different clusters created before it, every taxon and every node but the root a child exactly
+    once -/
+theorem upgma_well_formed (n : Nat) (hn : 2 ≤ n) (d : Nat → Nat → ℚ) : WellFormed n (upgma n d).nodes.reverse :=
+  upgma_wellFormed' n hn d
+
+/-- (a) parent/child arrays are consistent and in preorder: every cluster but the root has its parent node at a smaller C
+    index, and that node names it as left or right child (`parent[]`, `taxaparent[]` of `toCTree` are `parentIdx`) -/
+theorem upgma_parent_child (n : Nat) (hn : 2 ≤ n) (d : Nat → Nat → ℚ) (c : Nat) (hc : c < 2 * n - 2) :
+    ∃ h : parentIdx (upgma n d).nodes c < (upgma n d).nodes.length,
+      (((upgma n d).nodes[parentIdx (upgma n d).nodes c]).I = c ∨ ((upgma n d).nodes[parentIdx (upgma n d).nodes c]).J = c) ∧
+      c < 2 * n - 2 - parentIdx (upgma n d).nodes c :=
+  parentIdx_spec (upgma_wellFormed' n hn d) hn c hc
+
+/-- (a) with distances in [0, U] (U = 1 for `esl_dst_{C,X}DiffMx`): taxa have height 0, all heights lie in [0, U/2], every
+    branch length `ld`/`rd` is exactly the height difference between the node and its child (the `ESL_MAX(0., …)` clamp never
+    acts in exact arithmetic) and is ≥ 0, and heights never decrease from one created node to the next (UPGMA is
+    reducible: a size-weighted mean of two distances ≥ the current minimum is ≥ it) -/
+theorem upgma_heights (n : Nat) (hn : 2 ≤ n) (d : Nat → Nat → ℚ) (U : ℚ)
+    (hd : ∀ x y, x < y → y < n → 0 ≤ d x y ∧ d x y ≤ U) (hU : 0 ≤ U) :
+    (∀ t, t < n → (upgma n d).hgt.getD t 0 = 0) ∧
+    (∀ c, 0 ≤ (upgma n d).hgt.getD c 0 ∧ (upgma n d).hgt.getD c 0 ≤ U / 2) ∧
+    ∀ s (h : s < (upgma n d).nodes.reverse.length),
+      ((upgma n d).nodes.reverse[s]).l = (upgma n d).hgt.getD (n + s) 0 - (upgma n d).hgt.getD ((upgma n d).nodes.reverse[s]).I 0 ∧
+      ((upgma n d).nodes.reverse[s]).r = (upgma n d).hgt.getD (n + s) 0 - (upgma n d).hgt.getD ((upgma n d).nodes.reverse[s]).J 0 ∧
+      0 ≤ ((upgma n d).nodes.reverse[s]).l ∧ 0 ≤ ((upgma n d).nodes.reverse[s]).r ∧
+      (0 < s → (upgma n d).hgt.getD (n + s - 1) 0 ≤ (upgma n d).hgt.getD (n + s) 0) :=
+  upgma_heights' n hn d U hd hU
+
+/-- the distances GSC feeds in satisfy the hypothesis with U = 1 -/
+theorem diffMx_in_unit_interval (m : Mode) (rows : List Row) (x y : Nat) :
+    0 ≤ (1 : ℚ) - pid (α := ℚ) m (rows.getD x []) (rows.getD y []) ∧ (1 : ℚ) - pid (α := ℚ) m (rows.getD x []) (rows.getD y []) ≤ 1 := by
+  have := pid_range' m (rows.getD x []) (rows.getD y [])
+  constructor <;> linarith [this.1, this.2]
+
+/-- (a) `esl_tree_SetCladesizes` = number of taxa below the node (`leafSets`: a taxon is below itself, a node has the taxa of
+    its two children) = the `nin[]` the UPGMA average used; below the root every taxon occurs exactly once -/
+theorem upgma_cladesizes (n : Nat) (hn : 2 ≤ n) (d : Nat → Nat → ℚ) :
+    (∀ c, (kclades n (upgma n d).nodes.reverse).getD c 0 = ((leafSets n (upgma n d).nodes.reverse).getD c []).length) ∧
+    (∀ c, (upgma n d).size.getD c 0 = (kclades n (upgma n d).nodes.reverse).getD c 0) ∧
+    ((leafSets n (upgma n d).nodes.reverse).getD (2 * n - 2) []).Perm (List.range n) :=
+  upgma_cladesizes' n hn d
+
+/-- `esl_tree_SetCladesizes` counts the taxa below on ANY node list, well formed or not -/
+theorem cladesizes_count_leaves (n : Nat) (created : List (KNode ℚ)) (c : Nat) :
+    (kclades n created).getD c 0 = ((leafSets n created).getD c []).length :=
+  (kclades_eq_leaves n created).2 c
+
+/-- (b) the two GSC traversals + normalisation on ANY tree with branch lengths ≥ 0 (not only UPGMA's; incl. the
+    zero-length-subtree rule `lw+rw == 0` ⇒ split by clade size): n weights, all ≥ 0, summing to n -/
+theorem gscTree_sum_nonneg (n : Nat) (hn : 0 < n) (nodes : List (KNode ℚ)) (h : ∀ nd ∈ nodes, 0 ≤ nd.l ∧ 0 ≤ nd.r) :
+    (gscTree n nodes).length = n ∧ (gscTree n nodes).sum = n ∧ ∀ w ∈ gscTree n nodes, 0 ≤ w :=
+  ⟨gscTree_length n nodes, gscTree_sum n nodes hn, gscTree_nonneg n nodes h⟩
+
+/-- `esl_msaweight_GSC` is `gscTree` of the UPGMA tree of the difference matrix -/
+theorem gsc_is_gscTree_of_upgma (m : Mode) (rows : List Row) (h : (rows.length == 1) = false) :
+    gsc (α := ℚ) m rows =
+      gscTree rows.length (upgma rows.length (fun x y => WNum.ofNat 1 - pid m (rows.getD x []) (rows.getD y []))).nodes :=
+  gsc_eq_gscTree m rows h
+
+/-! non-vacuity: four taxa with distances 1/4, 3/4, 1, 1/2, 1, 1/2 (and a tie in the second pass) -/
+def exD : Nat → Nat → ℚ := fun x y => ([[0, 1/4, 3/4, 1], [0, 0, 1/2, 1], [0, 0, 0, 1/2]].getD x []).getD y 0
+example : ∀ x y, x < y → y < 4 → 0 ≤ exD x y ∧ exD x y ≤ 1 := by
+  have h : ∀ y, y < 4 → ∀ x, x < y → 0 ≤ exD x y ∧ exD x y ≤ 1 := by decide +kernel
+  exact fun x y hxy hy => h y hy x hxy
+example : wellFormedB 4 (upgma 4 exD).nodes.reverse = true := by decide +kernel
+example : ((upgma 4 exD).nodes.reverse.map fun nd => (nd.I, nd.J, nd.l, nd.r)) =
+    [(0, 1, 1/8, 1/8), (2, 3, 1/4, 1/4), (4, 5, 9/32, 5/32)] := by decide +kernel
+example : (toCTree 4 (upgma 4 exD)).left = [2, -2, 0] ∧ (toCTree 4 (upgma 4 exD)).right = [1, -3, -1] ∧
+    (toCTree 4 (upgma 4 exD)).parent = [0, 0, 0] ∧ (toCTree 4 (upgma 4 exD)).taxaparent = [2, 2, 1, 1] ∧
+    (toCTree 4 (upgma 4 exD)).cladesize = [4, 2, 2] := by decide +kernel
+/-- a tree that is not UPGMA's (not ultrametric), and one with a zero-length subtree (the clade-size rule) -/
+example : gscTree (α := ℚ) 3 [⟨0, 3, 2, 1⟩, ⟨1, 2, 1, 1⟩] = [6/5, 9/10, 9/10] ∧
+    gscTree (α := ℚ) 3 [⟨0, 3, 1, 1⟩, ⟨1, 2, 0, 0⟩] = [3/2, 3/4, 3/4] := by decide +kernel
+example : ∀ nd ∈ ([⟨0, 3, 1, 1⟩, ⟨1, 2, 0, 0⟩] : List (KNode ℚ)), 0 ≤ nd.l ∧ 0 ≤ nd.r := by
+  intro nd h; simp at h; rcases h with rfl | rfl <;> constructor <;> norm_num
+
+/-! ## the other pairwise functions of esl_distance.c -/
+
+/-- esl_dst_{C,X}PairMatch on aligned sequences: columns where both cells are residues over columns where at least one is
+    (0 if there is none), with the counts returned in `opt_nm`, `opt_n`; different lengths: eslEINVAL -/
+theorem pairMatch_spec (m : Mode) (a b : Row) :
+    (a.length = b.length → pairMatch (α := ℚ) m a b = some (pmSpec m a b, nmSpec m a b, eitherSpec m a b)) ∧
+    (a.length ≠ b.length → pairMatch (α := ℚ) m a b = none) :=
+  ⟨pairMatch_aligned m a b, pairMatch_unaligned' m a b⟩
+
+/-- symmetric, in [0,1]; and identities ≤ matches ≤ columns with a residue -/
+theorem pairMatch_symm_range (m : Mode) (a b : Row) :
+    pmatch (α := ℚ) m a b = pmatch m b a ∧ 0 ≤ pmatch (α := ℚ) m a b ∧ pmatch (α := ℚ) m a b ≤ 1 ∧
+    nidSpec m a b ≤ nmSpec m a b ∧ nmSpec m a b ≤ eitherSpec m a b :=
+  ⟨pmatch_comm m a b, (pmatch_range' m a b).1, (pmatch_range' m a b).2, nidSpec_le_nm m a b, nmSpec_le_either m a b⟩
+
+example : pairMatch (α := ℚ) Mode.text [65, 67, 45, 97] [97, 45, 45, 65] = some (2/3, 2, 3) := by decide +kernel
+
+/-- esl_dst_{C,X}JukesCantor: the counts do not depend on the order of the two sequences; unaligned: eslEINVAL -/
+theorem jukesCantor_symm (j : JCMode) (K : Nat) (a b : Row) :
+    jukesCantor (α := ℝ) j K a b = jukesCantor j K b a ∧ (a.length ≠ b.length → jukesCantor (α := ℝ) j K a b = .einval) := by
+  refine ⟨by unfold jukesCantor; rw [jcCounts_comm], fun h => by unfold jukesCantor; rw [jcCounts_none j a b h]⟩
+
+/-- static `jukescantor()` over ℝ, alphabet size K ≥ 2, n1 identities and n2 substitutions: no compared column ⇒
+    eslEDIVZERO; D = n2/(n1+n2) ≥ (K−1)/K ⇒ saturation (distance = variance = HUGE_VAL); otherwise
+    d = −(K/(K−1))·ln(1 − D·K/(K−1)) ≥ 0, variance = e^{2Kd/(K−1)}·D(1−D)/N ≥ 0, and both are 0 when n2 = 0 -/
+theorem jukescantor_spec (n1 n2 K : Nat) (hK : 2 ≤ K) :
+    (n1 + n2 = 0 → jukescantor (α := ℝ) n1 n2 K = .edivzero) ∧
+    (0 < n1 + n2 → (n1 + n2) * (K - 1) ≤ n2 * K → jukescantor (α := ℝ) n1 n2 K = .saturated) ∧
+    (0 < n1 + n2 → n2 * K < (n1 + n2) * (K - 1) → ∃ d v : ℝ, jukescantor (α := ℝ) n1 n2 K = .ok d v ∧
+      d = -Real.log (1 - ((n2 : ℝ) / ((n1 + n2 : Nat) : ℝ)) * K / ((K : ℝ) - 1)) * K / ((K : ℝ) - 1) ∧
+      v = Real.exp (2 * K * d / ((K : ℝ) - 1)) * ((n2 : ℝ) / ((n1 + n2 : Nat) : ℝ)) *
+            (1 - (n2 : ℝ) / ((n1 + n2 : Nat) : ℝ)) / ((n1 + n2 : Nat) : ℝ) ∧
+      0 ≤ d ∧ 0 ≤ v ∧ (n2 = 0 → d = 0 ∧ v = 0)) :=
+  ⟨fun h => by unfold jukescantor; simp [h], fun hp => (jukescantor_spec' n1 n2 K hK hp).1,
+   fun hp => (jukescantor_spec' n1 n2 K hK hp).2⟩
+
+/-- non-vacuity: DNA, 3 identities + 1 substitution is below saturation, 1 + 3 is at it -/
+example : (1 : Nat) * 4 < (3 + 1) * (4 - 1) ∧ (1 + 3) * (4 - 1) ≤ 3 * 4 := by decide
+example : jcCounts JCMode.text [65, 67, 71, 84, 45] [97, 67, 71, 65, 65] 0 0 = some (3, 1) := by decide
+
+/-- esl_dst_{C,X}Average{Id,Match} (`f` = pairwise identity resp. match fraction; `sampled` = the pairs the sampling
+    branch draws from `esl_randomness_Create(42)`): 1 for fewer than two rows; otherwise the plain mean over all pairs
+    i < j when N² ≤ 2·max_comparisons — THAT is the code's test, not "N(N−1)/2 ≤ max_comparisons" as documented —
+    else the mean over the sampled pairs -/
+theorem average_spec (f : Row → Row → ℚ) (rows : List Row) (maxc : Nat) (sampled : List (Nat × Nat)) :
+    (rows.length ≤ 1 → average f rows maxc sampled = 1) ∧
+    (2 ≤ rows.length → average f rows maxc sampled =
+      if rows.length * rows.length ≤ 2 * maxc then
+        ((allPairs rows.length).map fun p => f (rows.getD p.1 []) (rows.getD p.2 [])).sum /
+          ((rows.length * (rows.length - 1) / 2 : Nat) : ℚ)
+      else (sampled.map fun p => f (rows.getD p.1 []) (rows.getD p.2 [])).sum / (maxc : ℚ)) ∧
+    (allPairs rows.length).length = rows.length * (rows.length - 1) / 2 :=
+  ⟨average_single f rows maxc sampled, average_value f rows maxc sampled, allPairs_length rows.length⟩
+
+/-- four rows have six pairs, yet `max_comparisons = 6` sends the code into the sampling branch (16 > 12) -/
+example : exhaustive 4 6 = false ∧ 4 * (4 - 1) / 2 ≤ 6 ∧ exhaustive 4 8 = true := by decide
+
+/-- the average identity / match fraction lies in [0,1] in both branches, for EVERY list of `max_comparisons` ≥ 1 sampled
+    pairs (any generator state) -/
+theorem averageId_range (m : Mode) (rows : List Row) (maxc : Nat) (sampled : List (Nat × Nat))
+    (hs : sampled.length = maxc) (hm : 1 ≤ maxc) :
+    (0 ≤ averageId (α := ℚ) m rows maxc sampled ∧ averageId (α := ℚ) m rows maxc sampled ≤ 1) ∧
+    (0 ≤ averageMatch (α := ℚ) m rows maxc sampled ∧ averageMatch (α := ℚ) m rows maxc sampled ≤ 1) :=
+  ⟨average_range _ (pid_range' m) rows maxc sampled hs hm, average_range _ (pmatch_range' m) rows maxc sampled hs hm⟩
+
+example : averageId (α := ℚ) Mode.text [[65, 67], [65, 71], [84, 71]] 5 [] = 1/3 ∧
+    averageId (α := ℚ) Mode.text [[65, 67], [65, 71], [84, 71]] 2 [(0, 1), (2, 0)] = 1/4 := by decide +kernel
 
 end EaselModel.Props.C16
